@@ -66,6 +66,11 @@ func c08Data(in c08Input) []mockq.Rec {
 			r.TS = 5 * sec
 		case "pairs":
 			r.TS = int64(i/2+1) * sec
+		case "late": // the query window starts at 100 s; records 0 and 1 lie 25 s and 15 s before it
+			r.TS = int64(100+i) * sec
+			if i < 2 {
+				r.TS = int64(75+10*i) * sec
+			}
 		default: // "perm:2,0,1": the storage delivers the records out of time order
 			var ts int64
 			fmt.Sscanf(strings.Split(strings.TrimPrefix(in.Times, "perm:"), ",")[i], "%d", &ts)
@@ -96,7 +101,12 @@ func c08Check(r *vkit.Run, in c08Input) bool {
 	data := c08Data(in)
 	in.Text = q.Text()
 	var res logResult
-	if strings.HasPrefix(in.Times, "perm:") {
+	if in.Times == "late" {
+		// a range query without a step over [100 s, ...]: the storage honours the window, the two early records are no
+		// matching records
+		res = evalLogStep(newEngine(mockq.New(data)), in.Text, 100*sec, 1<<50, 0, in.Limit)
+		data = data[2:]
+	} else if strings.HasPrefix(in.Times, "perm:") {
 		res = evalLogOn(newEngine(mockq.NewUnsorted(data)), in.Text, 0, 1<<50, in.Limit)
 	} else {
 		res = evalLog(data, logqlengine.QuerierCapabilities{}, in.Text, in.Limit)
@@ -235,6 +245,20 @@ func c08Run(r *vkit.Run) {
 			r.NonTrivial()
 		}
 		r.State(fmt.Sprint(s))
+	}
+	// a window that starts after the first records, in a range query without a step
+	for _, sq := range [][]int{{7, 7, 7, 0, 7}, {0, 1, 2, 3, 4, 5}, {7, 0, 7, 0}} {
+		idx++
+		if !r.Mine(idx) || r.Stop() {
+			continue
+		}
+		for _, qi := range []int{0, 3} {
+			for _, lim := range []int{-1, 0, 1, 2, len(sq)} {
+				if c08Check(r, c08Input{Recs: sq, Times: "late", Query: qi, Limit: lim}) {
+					r.NonTrivial()
+				}
+			}
+		}
 	}
 	// many records: a non-positive limit returns all of them, however many (default caps such as 100 or 1000 are not "all")
 	for _, n := range []int{101, 1001, 5003} {
